@@ -244,19 +244,25 @@ impl SaveDirState {
                         at_out.flush()?;
                     }
 
+                    // Arguments in the at-file are written inside double quotes (see
+                    // `write_at_file_escaped`), so the values substituted for `$D` and `$OUT` need
+                    // `\` and `"` escaped. The replacement is quoted so that `&` isn't treated
+                    // specially by newer versions of bash.
                     write!(
                         setup_out,
                         "RSP_{rsp_index}=$(mktemp)\n\
+                         DQ=${{D//\\\\/\\\\\\\\}}; DQ=${{DQ//\\\"/\\\\\\\"}}\n\
+                         OUTQ=${{OUT//\\\\/\\\\\\\\}}; OUTQ=${{OUTQ//\\\"/\\\\\\\"}}\n\
                          while IFS= read -r LINE || [ -n \"$LINE\" ]; do\n\
-                           LINE=\"${{LINE//\\$D/$D}}\"\n\
-                           LINE=\"${{LINE//\\$OUT/$OUT}}\"\n\
+                           LINE=${{LINE//\\$D/\"$DQ\"}}\n\
+                           LINE=${{LINE//\\$OUT/\"$OUTQ\"}}\n\
                            printf '%s\\n' \"$LINE\"\n\
-                         done < \"$D/{at_filename}\" > \"$RSP_{rsp_index}\"\n\
+                         done < \"$D\"/{at_filename} > \"$RSP_{rsp_index}\"\n\
                          trap \"rm -f \\\"$RSP_{rsp_index}\\\"\" EXIT\n"
                     )?;
 
                     write_script_arg_separator(out)?;
-                    write!(out, "@$RSP_{rsp_index}")?;
+                    write!(out, "@\"$RSP_{rsp_index}\"")?;
                 }
                 continue;
             }
@@ -267,7 +273,7 @@ impl SaveDirState {
                 if path.is_empty() {
                     path = args.next().map(|s| s.as_str()).unwrap_or_default();
                 }
-                out.write_all(b"-o $OUT")?;
+                out.write_all(b"-o \"$OUT\"")?;
                 *original_output_file = Some(path.to_owned());
             } else if let Some(mut dir) = arg.strip_prefix("-L") {
                 if dir.is_empty() {
@@ -275,37 +281,27 @@ impl SaveDirState {
                 }
 
                 let dir = std::path::absolute(dir)?;
-                out.write_all(b"-L")?;
-                write_copied_file_arg(out, &dir)?;
+                write_arg(out, is_rsp_file, "-L", ArgTail::Copied(&dir))?;
             } else {
                 // If the arg contains '=', then check to see if what's after the '=' is a filename
                 // that exists. If it does, use that.
-                let maybe_path = if let Some(eq_index) = arg.find('=') {
+                let (prefix, maybe_path) = if let Some(eq_index) = arg.find('=') {
                     let after_equals = &arg[eq_index + 1..];
                     if Path::new(after_equals).exists() {
-                        out.write_all(&arg.as_bytes()[..=eq_index])?;
-                        after_equals
+                        (&arg[..=eq_index], after_equals)
                     } else {
-                        arg.as_str()
+                        ("", arg.as_str())
                     }
                 } else {
-                    arg.as_str()
+                    ("", arg.as_str())
                 };
 
-                let path = std::path::absolute(maybe_path)?;
-                if self.output_path(&path).exists() {
-                    write_copied_file_arg(out, &path)?;
-                } else if is_rsp_file {
-                    // At-file content is consumed directly by the linker, not by a shell, so no
-                    // shell escaping is needed.
-                    out.write_all(maybe_path.as_bytes())?;
-                } else {
-                    for b in maybe_path.bytes() {
-                        if b" $\\".contains(&b) {
-                            out.write_all(b"\\")?;
-                        }
-                        out.write_all(&[b])?;
+                // `absolute` fails for an empty argument. That's not a path, so it's written as-is.
+                match std::path::absolute(maybe_path) {
+                    Ok(path) if self.output_path(&path).exists() => {
+                        write_arg(out, is_rsp_file, prefix, ArgTail::Copied(&path))?;
                     }
+                    _ => write_arg(out, is_rsp_file, prefix, ArgTail::Literal(maybe_path))?,
                 }
             }
         }
@@ -588,10 +584,80 @@ fn write_arg_separator(out: &mut dyn Write, is_at_file: bool) -> Result {
     Ok(())
 }
 
-fn write_copied_file_arg(out: &mut dyn Write, path: &Path) -> Result {
-    out.write_all(b"$D/")?;
-    out.write_all(to_output_relative_path(path).as_os_str().as_encoded_bytes())?;
+/// What follows the (possibly empty) literal prefix of an argument.
+enum ArgTail<'a> {
+    /// A file or directory that we copied into the save directory.
+    Copied(&'a Path),
+    /// Text that is passed through unchanged.
+    Literal(&'a str),
+}
+
+/// Writes a single argument, quoted so that whatever reads it back (bash for the run-with script,
+/// our own response file parser for at-files) gets exactly one argument with the original text.
+fn write_arg(out: &mut dyn Write, is_rsp_file: bool, prefix: &str, tail: ArgTail) -> Result {
+    if is_rsp_file {
+        // At-file content is consumed by `arguments_from_string`, not by a shell. The whole
+        // argument goes inside double quotes. `$D` is substituted by the run-with script.
+        out.write_all(b"\"")?;
+        write_at_file_escaped(out, prefix.as_bytes())?;
+        match tail {
+            ArgTail::Copied(path) => {
+                out.write_all(b"$D/")?;
+                write_at_file_escaped(
+                    out,
+                    to_output_relative_path(path).as_os_str().as_encoded_bytes(),
+                )?;
+            }
+            ArgTail::Literal(text) => write_at_file_escaped(out, text.as_bytes())?,
+        }
+        out.write_all(b"\"")?;
+    } else {
+        if !prefix.is_empty() {
+            write_shell_quoted(out, prefix.as_bytes())?;
+        }
+        match tail {
+            ArgTail::Copied(path) => write_copied_file_arg(out, path)?,
+            ArgTail::Literal(text) => write_shell_quoted(out, text.as_bytes())?,
+        }
+    }
     Ok(())
+}
+
+/// Writes `bytes` as a single-quoted shell word. Nothing is special inside single quotes, so the
+/// only byte that needs attention is the single quote itself.
+fn write_shell_quoted(out: &mut dyn Write, bytes: &[u8]) -> Result {
+    out.write_all(b"'")?;
+    for &b in bytes {
+        if b == b'\'' {
+            out.write_all(b"'\\''")?;
+        } else {
+            out.write_all(&[b])?;
+        }
+    }
+    out.write_all(b"'")?;
+    Ok(())
+}
+
+/// Writes `bytes` for use inside a double-quoted at-file argument. Also makes sure that the text
+/// doesn't contain `$D` or `$OUT`, which the run-with script would substitute.
+fn write_at_file_escaped(out: &mut dyn Write, bytes: &[u8]) -> Result {
+    let mut previous = 0;
+    for &b in bytes {
+        if b == b'\\' || b == b'"' || (previous == b'$' && (b == b'D' || b == b'O')) {
+            out.write_all(b"\\")?;
+        }
+        out.write_all(&[b])?;
+        previous = b;
+    }
+    Ok(())
+}
+
+fn write_copied_file_arg(out: &mut dyn Write, path: &Path) -> Result {
+    out.write_all(b"\"$D\"/")?;
+    write_shell_quoted(
+        out,
+        to_output_relative_path(path).as_os_str().as_encoded_bytes(),
+    )
 }
 
 /// Returns where we should copy `path` to when we put it in our output directory.
